@@ -47,7 +47,7 @@ struct sim_thread {
 	pthread_t pt;
 	const char *name;
 	uint64_t nhooks, spin_hooks;
-	int spin;
+	int spin, slice;
 	uint64_t last_run;
 	uintptr_t stk_lo, stk_hi;
 	int prio;
@@ -447,6 +447,9 @@ static inline void step_common(sim_thread *me) {
 static void hook_point(sim_thread *me, const volatile void *addr, int den) {
 	step_common(me);
 	me->nhooks++; sim_st.hooks++;
+	// fair phase: round-robin time slices, so that a thread busy with calls that never block (an event
+	// loop whose descriptor stays ready) cannot starve the others; a pure function of the run, no tape entry
+	if (fair && ++me->slice >= 512) { me->slice = 0; reschedule(0); return; }
 	// injected stall: the thread sleeps for a span of simulated time at this very point
 	if (sim_k.stall_k || tape_replay) {
 		uint32_t code = 0;
@@ -767,9 +770,11 @@ uint32_t sim_epoll_registered(int fd) {
 	for (int i = 0; i < MAXREG; i++) if (epreg[i].events && epreg[i].fd == fd) return epreg[i].events;
 	return 0;
 }
+int sim_epoll_ctl_ebadf;   // epoll_ctl calls that failed with EBADF (descriptor already closed)
 int __wrap_epoll_ctl(int epfd, int op, int fd, struct epoll_event *ev) {
 	io_dirty = 1;
 	int r = __real_epoll_ctl(epfd, op, fd, ev);
+	if (r != 0 && errno == EBADF) sim_epoll_ctl_ebadf++;
 	if (r == 0) {
 		int slot = -1, freeslot = -1;
 		for (int i = 0; i < MAXREG; i++) {
